@@ -45,9 +45,21 @@ func cryptoBlockAsmX4(rk *uint32, dst, src *byte)
 func cryptoBlockAsmX8(rk *uint32, dst, src *byte)
 
 func (sm4 *sm4CipherAsm) Encrypt(dst, src []byte) {
+	if len(src) < BlockSize {
+		panic("sm4: input not full block")
+	}
+	if len(dst) < BlockSize {
+		panic("sm4: output not full block")
+	}
 	cryptoBlockAsm(&sm4.enc[0], &dst[0], &src[0])
 }
 
 func (sm4 *sm4CipherAsm) Decrypt(dst, src []byte) {
+	if len(src) < BlockSize {
+		panic("sm4: input not full block")
+	}
+	if len(dst) < BlockSize {
+		panic("sm4: output not full block")
+	}
 	cryptoBlockAsm(&sm4.dec[0], &dst[0], &src[0])
 }
